@@ -142,6 +142,25 @@ def free_names(ir, in_attr=False):
         i += 1
 
 
+def rule_tpl_crate_path(ctx):
+    """CRATE-PATH: generated code names the facade crate as `derive_more::..` - a *relative* path, which is what lets a crate re-export the derives together with the `derive_more` module (`use my_lib::{derive_more, Add};`, README 'Hygiene'); an absolute `::derive_more::..` resolves only for crates that depend on derive_more directly."""
+    n = 0
+    for t in T.all_templates(ctx.files):
+        for seq, i, x, parents in T.ir_walk(t.ir):
+            if x["t"] != "id" or x["s"] != "derive_more":
+                continue
+            n += 1
+            if i >= 2 and all(seq[j]["t"] == "p" and seq[j]["c"] == ":" for j in (i - 1, i - 2)) and (i == 2 or seq[i - 3]["t"] not in ("id", "var") and not (seq[i - 3]["t"] == "p" and seq[i - 3]["c"] == ">")):
+                ctx.report(
+                    f"crate-path:{t.key()}",
+                    f"{t.file.rel}:{t.file.line(x['span'][0])}",
+                    f"template in `{t.fn.qual}` names the facade crate by the absolute path `::derive_more`: a crate that uses the derives through a re-export (`use my_lib::{{derive_more, Add}};`) has no `derive_more` in its extern prelude - E0433 for exactly the inputs reaching this template",
+                    {"template": t.text()[:200]},
+                )
+    ctx.cur.instances += n
+    ctx.floor("`derive_more` path roots in templates", n, 180)
+
+
 def rule_tpl_hyg(ctx):
     """TPL-HYG: every identifier that starts a path or names a macro in a quote!/parse_quote! template is `derive_more`, declared by the templates of the same file, a generator-reserved `__` name, or absolute."""
     templates = T.all_templates(ctx.files)
